@@ -371,7 +371,18 @@ async fn debug_dump(label: &str, devices: &[Device], server: &vkit::world::Serve
         return;
     }
     let short = |recs: &Vec<EventRecord>| -> String {
-        recs.iter().map(|r| r.commit().to_string()[..4].to_string()).collect::<Vec<_>>().join(" ")
+        recs.iter()
+            .map(|r| {
+                let h = r.commit().to_string()[..4].to_string();
+                if std::env::var("SYNCX_DEBUG").as_deref() == Ok("time") {
+                    let t: time::OffsetDateTime = r.time().clone().into();
+                    format!("{}@{}", h, t.unix_timestamp_nanos() / 1_000_000 % 100_000_000)
+                } else {
+                    h
+                }
+            })
+            .collect::<Vec<_>>()
+            .join(" ")
     };
     eprintln!("--- {}", label);
     for d in devices {
@@ -939,7 +950,7 @@ async fn run_scenario(t: &Template, sc: &Scenario, work: &Path) -> Value {
                     None
                 };
                 if let Some(what) = what {
-                    fails.push("C05", format!("converged_folder_differs_from_time_ordered_replay:{}:{}", cls, what), "the converged folder is not the replay of the shared prefix followed by all devices' offline events in timestamp order".into(), json!({"log": name, "expected_secrets": ids(&want).len(), "got_secrets": ids(&got).len()}));
+                    fails.push("C05", format!("converged_folder_differs_from_time_ordered_replay:{}:{}:{}dev", cls, what, n_edit), "the converged folder is not the replay of the shared prefix followed by all devices' offline events in timestamp order".into(), json!({"log": name, "expected_secrets": ids(&want).len(), "got_secrets": ids(&got).len()}));
                 }
             }
         }
